@@ -128,12 +128,12 @@ func genResp(r *hv.Rng) (string, []byte) {
 	hasErr := false
 	for i := 0; i < n; i++ {
 		typ := byte(6)
-		switch r.Intn(6) {
-		case 0, 1:
+		switch r.Intn(12) {
+		case 0:
 			typ = 7
 			hasErr = true
-		case 2:
-			if r.Chance(1, 4) {
+		case 1:
+			if r.Chance(1, 3) {
 				typ = byte(r.Intn(12))
 			}
 		}
